@@ -4,6 +4,8 @@ A line rewriter that keeps line numbers, records the C types of parameters / loc
 that makes the two places where C semantics differ from Python explicit:
   * `/` between two int-typed operands (all functions are @cython.cdivision(True))  ->  c_idiv(a, b)   (truncation toward 0)
   * assignment of a non-int expression to an int-typed name                          ->  c_int(expr)
+  * `a ** b` with a double-typed exponent (Cython 3 soft-complex power)              ->  c_fpow(a, b)   (defined only for a > 0: otherwise the
+    generated C raises TypeError, which a `noexcept` function swallows and returns early)
 Anything the rewriter does not recognise raises ExtractionError (the obligations that need the function become undecided);
 nothing is guessed.  The result is a pyvc ModuleSrc, so the ordinary symbolic executor runs the kernels' real text.
 """
@@ -223,6 +225,8 @@ class _Typer(ast.NodeTransformer):
                     return self.ty(e.args[0]) if e.args else None
                 if f.id in ("c_idiv", "c_int"):
                     return "int"
+                if f.id == "c_fpow":
+                    return "double"
                 if f.id in self.all and "<return>" in self.all[f.id]:
                     t = self.all[f.id]["<return>"][0]
                     return t if t != "void" else None
@@ -239,6 +243,13 @@ class _Typer(ast.NodeTransformer):
 
     def visit_BinOp(self, node):
         self.generic_visit(node)
+        if isinstance(node.op, ast.Pow):
+            l, r = self.ty(node.left), self.ty(node.right)
+            if l in ("int", "double") and r == "double":
+                # Cython 3 (cpow=False): a C double raised to a C double goes through complex pow and is converted back with
+                # __Pyx_SoftComplexToDouble, which raises TypeError unless the imaginary part is exactly 0 — i.e. unless the base is > 0
+                self.rewrites += 1
+                return ast.copy_location(ast.Call(func=ast.Name(id="c_fpow", ctx=ast.Load()), args=[node.left, node.right], keywords=[]), node)
         if isinstance(node.op, ast.Div):
             l, r = self.ty(node.left), self.ty(node.right)
             if l is None or r is None:
